@@ -6,6 +6,7 @@ import JanetModel.Bytecode.VMMovopt
 import JanetModel.Bytecode.VMCallPasses
 import JanetModel.Spec.CallSite
 import JanetModel.Spec.FixedEmit
+import JanetModel.Spec.VariadicEmit
 
 /-!
 C15 - compiler specialisations of core functions preserve behaviour (theorems only).
@@ -514,6 +515,84 @@ example : (∃ m, evalInlineFixed Witness.WP getRow ([1, 2, 3].map ([Witness.WV.
     exec Witness.WP [mkABC .get 5 1 2, mkAI .jumpIfNotNil 5 2, mkAE .moveNear 5 3, mkD .return 5] 9
       ⟨[Witness.WV.tab, .tab, .n 1, .n 7, .n 0, .n 0], 0⟩ [] = some (.error "unsupported", []) :=
   ⟨⟨_, rfl⟩, rfl⟩
+
+/-! ### variadic arithmetic as an EMITTER: the instruction chain with its registers -/
+
+/-- checkable on the regenerated table: a variadic `opreduce` row accumulates with an opcode of the generic three-register case of the
+    interpreter, and its immediate opcode (if any) is the immediate form of that opcode -/
+def opreduceRowOk (r : OptRow) : Bool :=
+  match r.handler with
+  | .opreduce op opim _ _ => !(r.guard == .always) || (templateOps.contains op && immOk op opim)
+  | _ => true
+
+theorem opreduce_rows_ok : optimizers.all opreduceRowOk = true := by decide +kernel
+
+/-- ★ `(op a0 y r2 r3 ..)` for a variadic arithmetic / bitwise / shift row (`-` excepted as in `inline_eq_generic_partial`): the INSTRUCTIONS
+    `opreduce` emits (`Spec.emitOpreduceCode`: registers and immediates as operands, accumulation in the target register), placed anywhere and
+    run on the caller's slots, compute `m` into the target register - and the generic function's REAL bytecode run on the same argument
+    values computes the same `m` (value or error, world, order of operator-method calls) - for every number of operands and every mix of
+    register / immediate operands.  Side condition on registers = what `reduce_target(opts, args, 2)` provides: operands from the third on
+    do not live in the target register. -/
+theorem variadic_emitted_eq_generic (T : TupleLaws P) (p : OptRow × CoreFun) (hp : p ∈ variadicPairs) (hne : p.1.tagName ≠ "SUBTRACT")
+    (op : Op) (opim : Option Op) (nullary unary : Const) (hh : p.1.handler = .opreduce op opim nullary unary)
+    (code : List Instr) (s : List P.V) (pc t a0 : Nat) (y : RArg) (rest : List RArg)
+    (ht : t < 256) (h0 : a0 < 256) (hy : y.ok opim) (hok : ∀ a ∈ rest, a.ok opim) (hav : ∀ a ∈ rest, a.avoids t) (hlen : t < s.length)
+    (hat : HasAt code pc (emitOpreduceCode op opim t a0 y rest)) :
+    ∃ m, evalInline P p.1 ((⟨s.getD a0 P.nil, none⟩ : Arg P) :: argOf P s y :: rest.map (argOf P s)) = some m ∧
+      Computes P code s pc (rest.length + 1) m (fun v => s.set t v) (pc + (rest.length + 1)) ∧
+      ∀ w, ∃ gcode fuel, p.2.words.map decode = gcode.map some ∧
+        exec P gcode fuel (frame0 P T (((⟨s.getD a0 P.nil, none⟩ : Arg P) :: argOf P s y :: rest.map (argOf P s)).map (·.v))) w = some (m w) := by
+  have hmem : p.1 ∈ optimizers ∧ isVariadic p.1 = true := by
+    simp only [variadicPairs, List.mem_filterMap] at hp
+    obtain ⟨r, hr, hr2⟩ := hp
+    simp only [Option.map_eq_some_iff] at hr2
+    obtain ⟨t', _, rfl⟩ := hr2
+    exact ⟨(List.mem_filter.mp hr).1, (List.mem_filter.mp hr).2⟩
+  have hrow := List.all_eq_true.mp opreduce_rows_ok p.1 hmem.1
+  have hg : (p.1.guard == .always) = true := by
+    have := hmem.2
+    simpa [isVariadic, hh] using this
+  simp only [opreduceRowOk, hh, hg, Bool.not_true, Bool.false_or, Bool.and_eq_true, List.contains_iff_mem] at hrow
+  have hop : IsBinOp P op := isBinOp_of_mem P op (by simpa using hrow.1)
+  have himm : ∀ oi, opim = some oi → IsImmOp P oi := by
+    intro oi ho
+    subst ho
+    have : immBase oi = some op := by simpa [immOk] using hrow.2
+    exact isImmOp_of_base P oi op this
+  have hwf : ∀ a ∈ ((⟨s.getD a0 P.nil, none⟩ : Arg P) :: argOf P s y :: rest.map (argOf P s)), a.wf P := by
+    have hone : ∀ b : RArg, b.ok opim → (argOf P s b).wf P := by
+      intro b hb i hi
+      cases b with
+      | reg r => simp [argOf] at hi
+      | imm j =>
+        simp only [argOf, Option.some.injEq] at hi
+        subst hi
+        obtain ⟨_, h1, h2⟩ := hb
+        exact ⟨rfl, by simp only [immMin]; omega, by simp only [immMax]; omega⟩
+    intro a ha
+    simp only [List.mem_cons, List.mem_map] at ha
+    rcases ha with rfl | rfl | ⟨b, hb, rfl⟩
+    · intro i hi; cases hi
+    · exact hone y hy
+    · exact hone b (hok b hb)
+  refine ⟨evalOpreduce P opreduceUnarySpecial op opim nullary unary
+    ((⟨s.getD a0 P.nil, none⟩ : Arg P) :: argOf P s y :: rest.map (argOf P s)), by simp only [evalInline, hh], ?_, ?_⟩
+  · exact opreduce_chain_computes P opreduceUnarySpecial op opim nullary unary hop himm code s pc t a0 y rest ht h0 hy hok hav hlen hat
+  · intro w
+    obtain ⟨m', gcode, fuel, hi, hd, hf⟩ := inline_eq_generic_bytecode_partial P T p hp hne _ hwf w
+    have : m' = evalOpreduce P opreduceUnarySpecial op opim nullary unary
+        ((⟨s.getD a0 P.nil, none⟩ : Arg P) :: argOf P s y :: rest.map (argOf P s)) := by
+      simp only [evalInline, hh, Option.some.injEq] at hi
+      exact hi.symm
+    subst this
+    exact ⟨gcode, fuel, hd, hf⟩
+
+/-- non-vacuity: `(+ a0 5 a2)` with the target in register 3 is `addim 3 0 5; add 3 3 2`, and on the witness universe (integers) the chain
+    run from `[10, _, 7, _]` leaves 22 in register 3 -/
+example : emitOpreduceCode .add (some .addImmediate) 3 0 (.imm 5) [.reg 2] = [mkABI .addImmediate 3 0 5, mkABC .add 3 3 2] ∧
+    exec Witness.WP ([mkABI .subtractImmediate 3 0 5, mkABC .subtract 3 3 2, mkD .return 3]) 5
+      ⟨[Witness.WV.n 10, .n 0, .n 7, .n 0], 0⟩ [] = some (.ok (.n (-2)), []) :=
+  ⟨rfl, rfl⟩
 
 /-! ### `apply`: `do_apply` against the bytecode `make_apply` assembles; calls with a splice -/
 
